@@ -593,7 +593,7 @@ fn main() {
         let req: Value = match serde_json::from_str(&line) {
             Ok(v) => v,
             Err(e) => {
-                writeln!(out, "{}", json!({"error": format!("bad json: {e}")})).unwrap();
+                writeln!(out, "@@ANS {}", json!({"error": format!("bad json: {e}")})).unwrap();
                 continue;
             }
         };
@@ -613,7 +613,9 @@ fn main() {
                 }
             }
         };
-        writeln!(out, "{}", ans).unwrap();
+        // debug printing of the library goes to stdout as well: flush and tag our own lines
+        out.flush().unwrap();
+        writeln!(out, "@@ANS {}", ans).unwrap();
     }
     out.flush().unwrap();
 }
